@@ -68,6 +68,8 @@ pub struct Env {
     opts: RndOpts,
     codec: CodecKind,
     seen_numbers: Vec<u8>,
+    /// calls of a targeted multi-step scenario still to be made (consumed before anything random)
+    queue: std::collections::VecDeque<Call>,
 }
 
 fn pick<T: Copy>(r: &mut SmallRng, xs: &[T]) -> T {
@@ -378,6 +380,7 @@ pub fn run(opts: &RndOpts, tw: &mut TraceWriter) {
             opts: opts.clone(),
             codec,
             seen_numbers: vec![],
+            queue: Default::default(),
         };
         for _step in 0..opts.steps {
             if node.poisoned {
@@ -385,7 +388,38 @@ pub fn run(opts: &RndOpts, tw: &mut TraceWriter) {
             }
             env.now += env.rng.random_range(0..400);
             let choice = env.rng.random_range(0..100);
-            let call: Call = if choice < 30 && !env.pending.is_empty() {
+            // targeted scenario (one step in forty starts one): scratch buffers and multi-call windows that a
+            // purely random sequence rarely lines up.
+            //  "feed pair": many members become active, a join request is answered (a Feed that may be truncated),
+            //  most of them are declared down (or the packet grows), a second join request is answered at once
+            if env.queue.is_empty() && env.rng.random_range(0..40) == 0 {
+                let own = node.id();
+                let peers: Vec<Id> = (1..=env.naddr).filter(|a| *a != own.addr).map(|a| Id::new(a, 0)).collect();
+                if peers.len() >= 2 {
+                    let announce = |env: &mut Env, from: Id, to: Id| {
+                        let h = Header { src: from, src_incarnation: 0, dst: to, message: Message::Announce };
+                        codec::build(env.codec, &h, None, &[], &[]).unwrap_or_default()
+                    };
+                    let ups: Vec<Member<Id>> = peers.iter().map(|p| Member::new(*p, 1, State::Alive)).collect();
+                    env.queue.push_back(Call::ApplyMany(ups, env.rng.random_range(0..2) == 0));
+                    let a = announce(&mut env, peers[0], own);
+                    env.queue.push_back(Call::Data(a));
+                    if opts.resize && env.rng.random_range(0..2) == 0 {
+                        let mut c = node.foca.verif_snapshot().config;
+                        c.max_packet_size = std::num::NonZeroUsize::new(1400).unwrap();
+                        env.queue.push_back(Call::SetConfig(c));
+                    } else {
+                        let keep = env.rng.random_range(1..=2usize);
+                        let downs: Vec<Member<Id>> = peers.iter().skip(keep).map(|p| Member::new(*p, 1, State::Down)).collect();
+                        env.queue.push_back(Call::ApplyMany(downs, true));
+                    }
+                    let b = announce(&mut env, peers[1], own);
+                    env.queue.push_back(Call::Data(b));
+                }
+            }
+            let call: Call = if let Some(c) = env.queue.pop_front() {
+                c
+            } else if choice < 30 && !env.pending.is_empty() {
                 // deliver a pending timer (exactly once)
                 let i = if opts.ordered || env.rng.random_range(0..3) != 0 {
                     // deadline order, ties by Timer::cmp then issue order
@@ -477,6 +511,10 @@ pub fn run(opts: &RndOpts, tw: &mut TraceWriter) {
                                     _ => c.periodic_announce_to_down_members = Some(pp),
                                 }
                             }
+                        }
+                        // a refused configuration may differ in the packet size as well: nothing of it may stick
+                        if opts.resize && env.rng.random_range(0..2) == 0 {
+                            c.max_packet_size = std::num::NonZeroUsize::new(pick(&mut env.rng, &[20usize, 48, 1400])).unwrap();
                         }
                     }
                     5 => c.notify_down_members = !c.notify_down_members,
